@@ -116,6 +116,7 @@ def run_case(case):
         f1 = os.path.join(root, "fresh-object")
         checkout(spell(f1), fs, obj if single else Tree.load(odb, obj.hash_info), odb, state=state)
         fresh = {"object": walk(f1)}
+        raised = {}
         # ---- index route (directories)
         if not single:
             odb2 = cls(fs, os.path.join(root, "cache2"), **cfg)
@@ -124,8 +125,11 @@ def run_case(case):
             idx.storage_map.add_cache(ObjectStorage((), odb2))
             f2 = os.path.join(root, "fresh-index")
             diff = compare(None, idx)
-            apply(diff, spell(f2), fs, storage="cache", state=state)
-            fresh["index"] = walk(f2)
+            try:
+                apply(diff, spell(f2), fs, storage="cache", state=state)
+            except Exception as exc:  # noqa: BLE001
+                raised["index"] = type(exc).__name__
+            fresh["index"] = walk(f2) if os.path.isdir(f2) else ({}, [])
             # ---- index route over a LAZY index: the whole tree is one unloaded entry pointing at the directory object,
             # expanded from object storage by compare()
             from dvc_data.hashfile.meta import Meta
@@ -135,11 +139,14 @@ def run_case(case):
             lazy[("data",)] = DataIndexEntry(key=("data",), meta=Meta(isdir=True), hash_info=obj.hash_info)
             lazy.storage_map.add_cache(ObjectStorage((), odb))
             f3 = os.path.join(root, "fresh-lazy")
-            apply(compare(None, lazy), spell(f3), fs, storage="cache", state=state)
-            fresh["lazy"] = walk(os.path.join(f3, "data"))
+            try:
+                apply(compare(None, lazy), spell(f3), fs, storage="cache", state=state)
+            except Exception as exc:  # noqa: BLE001 - the library's failure is the observation (the walk tells what is there)
+                raised["lazy"] = type(exc).__name__
+            fresh["lazy"] = walk(os.path.join(f3, "data")) if os.path.isdir(os.path.join(f3, "data")) else ({}, [])
         return {"src": case["src"], "staged": {"listing": listing, "nfiles": int(nfiles or 0), "size": int(size or 0)},
                 "reloaded": reloaded, "fresh": {r: v[0] for r, v in fresh.items()},
-                "extra": {r: v[1] for r, v in fresh.items()},
+                "extra": {r: v[1] for r, v in fresh.items()}, "raised": [f"{r}:{t}" for r, t in sorted(raised.items())],
                 "case": case}
     finally:
         os.chdir("/")
@@ -189,14 +196,14 @@ def check(run: core.Run, replay=None):
     errs = [r for r in recs if "harness_error" in r]
     if errs:
         raise tlc.MachineryError("harness error:\n" + errs[0]["harness_error"] + json.dumps(errs[0]["case"]))
-    doc = [{k: r[k] for k in ("src", "staged", "reloaded", "fresh", "extra")} for r in recs]
+    doc = [{k: r[k] for k in ("src", "staged", "reloaded", "fresh", "extra", "raised")} for r in recs]
     printed, stats = validate.validate_traces("RoundTripTrace", "RoundTripTrace.cfg", doc, shards=8)
     run.traces += len(recs)
     run.events += 5 * len(recs)
     for v in printed:
         if isinstance(v, tuple) and len(v) == 6 and v[0] == "VERDICT":
             r = recs[v[3] - 1]
-            run.verdict(v[1], v[2], v[5], {k: r[k] for k in ("src", "staged", "reloaded", "fresh", "extra", "case")})
+            run.verdict(v[1], v[2], v[5], {k: r[k] for k in ("src", "staged", "reloaded", "fresh", "extra", "raised", "case")})
     run.extra.update({"rule": "all 255 non-empty trees over 4 nested paths x {empty, LF, CRLF} contents (duplicates included), odd names "
                               "(non-ASCII, spaces, '.dir' suffix, leading dot), an untracked nested empty directory in every source, "
                               "plus single-file sources; source and target paths spelled plain / with a trailing separator / relative to the "
